@@ -1,11 +1,11 @@
 SPECIFICATION GSpec
-CONSTANTS Targets = {1, 2}
+CONSTANTS Targets = {1}
           Tsizes = {0}
           DataVals = {"nil", "empty", "x"}
           Builders = {"v0", "v1"}
           MaxLinks = 4
           NNames = 2
-          Lean = TRUE
+          Lean = 2
           D = 4
           E = 4
 INVARIANTS Emit
